@@ -37,6 +37,7 @@ package redis
 //@ prop C13 C12
 //@ ensures[success-only-after-a-successful-lock-command] ret0 == nil ==> called(Obtain) && ret1(Obtain) == nil && l.lock == ret0(Obtain)
 //@ ensures[lock-command-error-is-reported] ret1(Obtain) != nil ==> ret0 != nil
+//@ ensures[contention-is-reported-as-lock-not-obtained] errors.Is(ret1(Obtain), redislock.ErrNotObtained) ==> ret0 == sessions.ErrLockNotObtained
 //@ at call Obtain assert[locks-this-sessions-key] arg(Obtain, 0) == l.locker && arg(Obtain, 2) == l.key + ".lock" && arg(Obtain, 3) == expiration
 
 //@ func (*Lock).Refresh
